@@ -3,6 +3,7 @@
   sound w.r.t. the Prop-level hypotheses of the theorems in `Proofs/Contracts*.lean`.
 -/
 import PasfmtModel.Model.Pipeline
+import PasfmtModel.Model.Mls
 
 namespace Pasfmt
 
@@ -23,6 +24,14 @@ def wrapFrameB (ft ft' : FT) : Bool := all2B wrapRelB ft ft'
 /-- contents of all scanned tokens have no dangling `E3` (follows from valid UTF-8 + char-boundary
     token ends; checked per run until `lex_char_boundaries` is proved) -/
 def contentsNdB (raw : List RawTok) : Bool := raw.all fun t => nd t.content
+
+/-- content clause of `WrapContract`: the wrapper stage changes only non-ignored multi-line string
+    literals, exactly as the string re-indenter computes from the token's final counters
+    (includes `ReflowKeepsStringIndent`) -/
+def wrapContentB (cfg : Config) (ft ft' : FT) : Bool :=
+  all2B (fun t t' =>
+    t'.tok.kind == t.tok.kind && t'.fmt.ignored == t.fmt.ignored &&
+    t'.tok.content == mlsTok cfg.settings cfg.fmtMls t t'.fmt.ind t'.fmt.cont) ft ft'
 
 /-- side conditions of the reconstruction theorems, evaluated on the final token list -/
 def isSingleLineCommentK : Kind → Bool
